@@ -11,7 +11,7 @@ def statements(header, lemmas):
     res = []
     for _, l, _ in lemmas:
         short = l.split('.')[-1]
-        m = re.search(r'(?m)^(?:Coq < )*' + re.escape(short) + r'\n\s+: (.*?)(?=\n\n|\n\S|\Z)', out, re.S)
+        m = re.search(r'(?m)^(?:Coq < )*(?:[\w.]+\.)?' + re.escape(short) + r'\n\s+: (.*?)(?=\n\n|\n\S|\Z)', out, re.S)
         if not m:
             raise SystemExit(f'no statement for {l}\n{out[-2000:]}\n{p.stderr[-2000:]}')
         res.append(' '.join(m.group(1).split()))
